@@ -43,7 +43,7 @@ func (e *Engine) VerifyFunction(key string, opts VerifyOpts) (*FuncResult, error
 	}
 	vc := &VC{E: e, P: NewPool(), Fn: fn, C: ct, Key: shortKey(e, key), heap0: map[string]*Term{}, heapSort: map[string]Sort{},
 		written: map[string]bool{}, typed: map[*Term]bool{}, subSeen: map[*Term]bool{}, counters: map[string]int{},
-		allocTypes: map[string]bool{}, ranges: map[*ssa.Range]*rangeInfo{}, usedContracts: map[string]bool{}}
+		refAx: map[string]bool{}, allocTypes: map[string]bool{}, ranges: map[*ssa.Range]*rangeInfo{}, usedContracts: map[string]bool{}}
 	vc.safety = opts.Safety || (ct != nil && ct.NoPanic)
 	vc.arith = opts.Arith || (ct != nil && ct.Arith)
 	p := vc.P
@@ -169,7 +169,8 @@ func (vc *VC) frameObligations(exit *State, ct *Contract, fn *ssa.Function, args
 			vc.qSeq++
 			r := p.Var(fmt.Sprintf("r?%d", vc.qSeq), SInt)
 			var exempt []*Term
-			exempt = append(exempt, p.Gt(r, a0)) // fresh objects
+			exempt = append(exempt, p.Gt(r, a0))          // fresh objects
+			exempt = append(exempt, p.Eq(r, p.Int(0))) // the nil reference holds no location
 			for _, l := range ls {
 				exempt = append(exempt, p.Eq(r, l.idx[0]))
 			}
